@@ -42,7 +42,7 @@ def grid_nm(draw, lo=200.0, hi=3000.0, nmin=2, nmax=40):
 
 @st.composite
 def pair_case(draw, tier="quick"):
-    relation = draw(st.sampled_from(["identical", "nested", "partial", "disjoint", "free", "same_numbers"]))
+    relation = draw(st.sampled_from(["identical", "nested", "partial", "disjoint", "free", "same_numbers", "near_aligned"]))
     nmax = 25 if tier == "quick" else 60
     w1, k1 = draw(grid_nm(nmax=nmax))
     if relation == "identical":
@@ -67,6 +67,27 @@ def pair_case(draw, tier="quick"):
             w2 = a + u * (b - a)
         if draw(st.booleans()):
             w1, w2, k1, k2 = w2, w1, k2, k1
+    if relation == "near_aligned":
+        # a finely and uniformly sampled operand (spacing h = 1e-3 .. 1e-7 of the wavelength) and a coarser one whose
+        # far end makes the union (K + e) h long with |e| = 0 .. 1e-2: the common grid nearly, but not exactly,
+        # coincides with the fine operand's own samples
+        L = draw(gen.finite(300.0, 2000.0))
+        h = L * draw(st.sampled_from([1e-3, 1e-4, 1e-5, 1e-6, 1e-7]))
+        N = draw(st.integers(40, 300))
+        w1 = L + h * np.arange(N + 1)
+        K = draw(st.integers(N + 1, 2 * N))
+        if draw(st.booleans()):
+            # drift of the common grid against the fine samples between 1e-12 and 5e-10 of the wavelength: far more
+            # than rounding, far less than any "same wavelength" tolerance one might be tempted to use
+            e = -min(0.02, draw(st.sampled_from([5e-10, 2e-10, 1e-10, 1e-11, 1e-12])) / (h / L)) * draw(st.sampled_from([1.0, 1.0, -1.0]))
+        else:
+            e = draw(st.sampled_from([0.0, 1e-2, 1e-3, 1e-4, 1e-5, 1e-6, 1e-7])) * draw(st.sampled_from([-1.0, 1.0]))
+        n2 = draw(st.integers(3, 30))
+        start = L + h * (draw(st.integers(0, N)) + (0.5 if draw(st.booleans()) else 0.0))
+        w2 = np.linspace(start, L + (K + e) * h, n2)
+        k1, k2 = "uniform", "uniform"
+        if draw(st.booleans()):
+            w1, w2 = w2, w1
     op = draw(st.sampled_from(list(OPS)))
     pos = op in ("divide", "power")
     s1 = draw(st.integers(0, 2**31 - 1))
@@ -83,6 +104,8 @@ def pair_case(draw, tier="quick"):
     if min(len(w1), len(w2)) < 4:
         method = "linear"
     sampling = draw(st.sampled_from(["min", "min", "left", "right", "float"]))
+    if relation == "near_aligned" and draw(st.booleans()):
+        sampling = "min"
     if sampling == "float":
         span = max(w1[-1], w2[-1]) - min(w1[0], w2[0])
         sampling = span / draw(gen.finite(3.3, 80.7))
@@ -117,9 +140,12 @@ def pair_case(draw, tier="quick"):
 
 
 def mk(w_nm, v, unit, valueunit):
+    from checks import common as cm
     f = rs.factor("nm", unit)
     vv = v / f if valueunit else v          # density per unit wavelength
-    return Spectrum(w_nm * f, vv.copy(), waveunit=unit, valueunit=valueunit)
+    s = Spectrum(w_nm * f, vv.copy(), waveunit=unit, valueunit=valueunit)
+    # as constructed, or an equal duplicate (copy() / deepcopy / pickle round trip)
+    return cm.derive_obj(s, len(w_nm) + int(abs(float(v[0])) * 1000))[0]
 
 
 def snapshot_phys(s):
